@@ -868,7 +868,6 @@ void matrixSslDeleteSession(ssl_t *ssl)
     {
         matrixSslDeleteHelloExtension(ssl->userExt);
     }
-# ifdef ENABLE_SECURE_REHANDSHAKES
     if (!(ssl->flags & SSL_FLAGS_SERVER))
     {
         if (ssl->tlsClientCipherSuites != NULL)
@@ -878,7 +877,6 @@ void matrixSslDeleteSession(ssl_t *ssl)
             ssl->tlsClientCipherSuitesLen = 0;
         }
     }
-# endif
 #endif
 
 #if defined(USE_IDENTITY_CERTIFICATES)
